@@ -49,6 +49,17 @@ def base(ctx, n):
             if p[-1]['body'][0][1][1][0] not in ('dia', 'box'):
                 p.pop()
         out.append(p)
+    # fixed family: two head formulas that differ in one operator only (weak / strong next, until / release, and / or), each in a rule of its own,
+    # in both textual orders - which of them is seen first must not matter
+    A_, B_ = ('atom', 'a'), ('atom', 'b')
+    sibs = [(('next', None, A_), ('wnext', None, A_)), (('next', 2, A_), ('wnext', 2, A_)), (('until', B_, A_), ('release', B_, A_)), (('or', A_, ('next', None, B_)), ('or', A_, ('wnext', None, B_))),
+            (('seqnext', A_, B_), ('seqwnext', A_, B_)), (('until', None, A_), ('release', None, A_))]
+    for f, g in sibs:
+        for part in ('initial', 'always'):
+            for first in (0, 1):
+                r1 = {'part': part, 'head': ('tel', f), 'body': [('p', ('patom', 'c', 0))]}
+                r2 = {'part': part, 'head': ('tel', g), 'body': [('n', ('patom', 'c', 0))]}
+                out.append([{'part': 'always', 'head': ('choice', ['c']), 'body': []}] + ([r1, r2] if first == 0 else [r2, r1]))
     return out
 
 
